@@ -208,6 +208,7 @@ func (w *Writer) Put2(bs []byte) (n *skiplist.Node) {
 	var success bool
 	x := w.newItem(bs, w.useMemoryMgmt)
 	x.bornSn = w.GetCurrSn()
+	verifYield(vpPutInsert, w.Nitro, unsafe.Pointer(x), nil)
 	n, success = w.store.Insert2(unsafe.Pointer(x), w.insCmp, w.existCmp, w.buf,
 		w.rand.Float32, &w.slSts1)
 	if success {
@@ -244,6 +245,7 @@ func (w *Writer) DeleteNode(x *skiplist.Node) (success bool) {
 		}
 	}()
 
+	verifYield(vpDelNodeEntry, w.Nitro, unsafe.Pointer(x), nil)
 	x.SetLink(nil)
 	sn := w.GetCurrSn()
 	gotItem := (*Item)(x.Item())
@@ -251,12 +253,15 @@ func (w *Writer) DeleteNode(x *skiplist.Node) (success bool) {
 		success = w.store.DeleteNode(x, w.insCmp, w.buf, &w.slSts1)
 
 		barrier := w.store.GetAccesBarrier()
+		verifYield(vpDelNodeFlush, w.Nitro, unsafe.Pointer(x), nil)
 		barrier.FlushSession(unsafe.Pointer(x))
 		return
 	}
 
+	verifYield(vpDelNodeCAS, w.Nitro, unsafe.Pointer(x), nil)
 	success = atomic.CompareAndSwapUint32(&gotItem.deadSn, 0, sn)
 	if success {
+		verifYield(vpDelNodeAppend, w.Nitro, unsafe.Pointer(x), nil)
 		if w.gctail == nil {
 			w.gctail = x
 			w.gchead = w.gctail
@@ -567,6 +572,7 @@ func (s *Snapshot) Open() bool {
 	if atomic.LoadInt32(&s.refCount) == 0 {
 		return false
 	}
+	verifYield(vpSnapOpenMid, s.db, unsafe.Pointer(s), nil)
 	atomic.AddInt32(&s.refCount, 1)
 	return true
 }
@@ -576,6 +582,7 @@ func (s *Snapshot) Open() bool {
 // Close(). Internal garbage collector takes care of freeing the items.
 func (s *Snapshot) Close() {
 	newRefcount := atomic.AddInt32(&s.refCount, -1)
+	verifYield(vpSnapCloseDec, s.db, unsafe.Pointer(s), nil)
 	if newRefcount == 0 {
 		buf := s.db.snapshots.MakeBuf()
 		defer s.db.snapshots.FreeBuf(buf)
@@ -583,6 +590,7 @@ func (s *Snapshot) Close() {
 		// Move from live snapshot list to dead list
 		s.db.snapshots.Delete(unsafe.Pointer(s), CompareSnapshot, buf, &s.db.snapshots.Stats)
 		s.db.gcsnapshots.Insert(unsafe.Pointer(s), CompareSnapshot, buf, &s.db.gcsnapshots.Stats)
+		verifYield(vpSnapCloseMoved, s.db, unsafe.Pointer(s), nil)
 		s.db.GC()
 	}
 }
@@ -659,6 +667,7 @@ func (m *Nitro) collectionWorker(w *Writer) {
 				close(w.dwrCtx.closed)
 				return
 			}
+			verifYield(vpGCListBegin, m, unsafe.Pointer(gclist), nil)
 			for n := gclist; n != nil; n = n.GetLink() {
 				w.doDeltaWrite((*Item)(n.Item()))
 				m.store.DeleteNode(n, m.insCmp, buf, &w.slSts2)
@@ -668,12 +677,14 @@ func (m *Nitro) collectionWorker(w *Writer) {
 
 			barrier := m.store.GetAccesBarrier()
 			barrier.FlushSession(unsafe.Pointer(gclist))
+			verifYield(vpGCListEnd, m, unsafe.Pointer(gclist), nil)
 		}
 	}
 }
 
 func (m *Nitro) freeWorker(w *Writer) {
 	for freelist := range m.freechan {
+		verifYield(vpFreeListBegin, m, unsafe.Pointer(freelist), nil)
 		for n := freelist; n != nil; {
 			dnode := n
 			n = n.GetLink()
@@ -684,6 +695,7 @@ func (m *Nitro) freeWorker(w *Writer) {
 		}
 
 		m.store.Stats.Merge(&w.slSts3)
+		verifYield(vpFreeListEnd, m, unsafe.Pointer(freelist), nil)
 	}
 
 	m.shutdownWg2.Done()
@@ -708,6 +720,7 @@ func (m *Nitro) collectDead() {
 		}
 
 		atomic.StoreUint32(&m.lastGCSn, sn.sn)
+		verifYield(vpGCSend, m, unsafe.Pointer(sn), unsafe.Pointer(sn.gclist))
 		m.gcchan <- sn.gclist
 		m.gcsnapshots.DeleteNode(node, CompareSnapshot, buf2, &m.gcsnapshots.Stats)
 	}
@@ -716,8 +729,10 @@ func (m *Nitro) collectDead() {
 // GC implements manual garbage collection of Nitro snapshots.
 func (m *Nitro) GC() {
 	if atomic.CompareAndSwapInt32(&m.isGCRunning, 0, 1) {
+		verifYield(vpGCLocked, m, nil, nil)
 		m.collectDead()
 		atomic.CompareAndSwapInt32(&m.isGCRunning, 1, 0)
+		verifYield(vpGCUnlocked, m, nil, nil)
 	}
 }
 
